@@ -8,6 +8,7 @@ Correspondence layers:
 Property predicate: directory snapshots before/after on the real code.
 """
 import ast
+import json
 import contextlib
 import io
 import itertools
@@ -314,7 +315,7 @@ class C20(Prop):
 
     # ---- engine hooks -----------------------------------------------------------------------
     def _observe(self, c):
-        key = id(c)
+        key = json.dumps(c, sort_keys=True, default=repr)
         if getattr(self, "_cache_key", None) != key:
             self._cache = self._cli_observe(c) if c["family"] == "cli" else self._fault_observe(c)
             self._cache_key = key
